@@ -15,7 +15,7 @@ IO = H("POST /io HTTP/1.1\r\nHost: h\r\nTransfer-Encoding: chunked\r\n\r\n")
 CHUNK = lambda s: H("%x\r\n%s\r\n" % (len(s), s))
 
 
-def scenario(rng, one, kind, pre):
+def scenario(rng, one, kind, pre, listen=None, patient=True):
     """pre: attempts before the real shell (half attached ones that go away, refused ones); kind: how the shell attaches."""
     acts, marks = [], []
     def probe(expect_open, label):
@@ -30,6 +30,8 @@ def scenario(rng, one, kind, pre):
             acts += [{"a": "raw", "req": H("GET /i/ HTTP/1.1\r\nHost: h\r\nConnection: close\r\n\r\n")},
                      {"a": "open", "id": "k", "req": IN("k1"), "quiet_ms": 100}, {"a": "raw", "req": H("GET /o/other HTTP/1.1\r\nHost: h\r\nConnection: close\r\nContent-Length: 0\r\n\r\n")},
                      {"a": "close", "id": "k", "quiet_ms": 200}]; marks += [("x", "")] * 4
+        elif p == "fdstorm":
+            acts += [{"a": "fdstorm", "spare": 30}]; marks += [("x", "")]
         probe(True, "after " + p)
     if kind == "in-out":
         acts += [{"a": "open", "id": "i", "req": IN("s1"), "quiet_ms": 120}]; marks.append(("x", ""))
@@ -41,7 +43,12 @@ def scenario(rng, one, kind, pre):
         acts += [{"a": "open", "id": "i", "req": IN("s1"), "quiet_ms": 200}]; marks.append(("ready", ""))
     else:
         acts += [{"a": "open", "id": "o", "req": IO, "quiet_ms": 250}]; marks.append(("ready", ""))
-    probe(not one, "after ready")
+    if one and not patient:
+        # ONE connection attempt a second after the ready notice - not a poll: a listener which only goes away once somebody has knocked is still open
+        acts.append({"a": "sleep", "ms": 1000}); marks.append(("x", ""))
+        acts.append({"a": "probe"}); marks.append(("probe", "one attempt, 1 s after ready"))
+    else:
+        probe(not one, "after ready")
     # traffic through the shell after the close
     acts += [{"a": "line", "l": H("echo hi"), "quiet_ms": 150}, {"a": "send", "id": "o", "d": CHUNK("OUTPUT-AFTER-CLOSE\n"), "quiet_ms": 200}]
     marks += [("x", ""), ("traffic", "")]
@@ -53,7 +60,11 @@ def scenario(rng, one, kind, pre):
     acts += [{"a": "close", "id": "o", "quiet_ms": 300}]; marks.append(("gone", ""))
     acts += [{"a": "wait_do", "ms": 2500 if one else 200}]; marks.append(("do", ""))
     probe(not one, "after the shell")
-    return {"cfg": {"oneshell": one}, "acts": acts, "_marks": marks, "_one": one, "_desc": {"one_shell": one, "attach": kind, "before": pre}}
+    cfg = {"oneshell": one}
+    if listen:
+        cfg["listen"] = listen
+    return {"cfg": cfg, "acts": acts, "_marks": marks, "_one": one, "_desc": {"one_shell": one, "attach": kind, "before": pre, "listen": listen or "127.0.0.1:0",
+                                                                                 "probe_after_ready": "poll" if patient else "single"}}
 
 
 def make_cases(rng, tier):
@@ -63,6 +74,12 @@ def make_cases(rng, tier):
         for kind in ("in-out", "out-in", "io"):
             for pre in (pres if tier != "quick" else ([pres[0], pres[rng.randrange(1, 3)], pres[4]] if one else [pres[1]])):
                 cases.append(scenario(rng, one, kind, pre))
+    # other listen addresses (IPv6 loopback, a name), and a single connection attempt after the ready notice instead of a poll
+    for listen, kind, patient in (("[::1]:0", "io", False), ("[::1]:0", "in-out", True), ("localhost:0", "out-in", False), ("127.0.0.1:0", "io", False)):
+        cases.append(scenario(rng, True, kind, [], listen=listen, patient=patient))
+    # the process runs out of file descriptors while many silent callers connect (accept fails for a while): the listener is still there afterwards
+    cases.append(scenario(rng, True, "io", ["fdstorm"]))
+    cases.append(scenario(rng, False, "in-out", ["half-in", "fdstorm"]))
     for k, c in enumerate(cases):
         c["i"] = k
     return cases
@@ -271,7 +288,7 @@ def check(run):
                       "attempts (wrong id, missing id) or a mix; the listening socket is probed with connect(2) at start, after every earlier attempt, "
                       "while half attached, after the ready notice (polling up to 3 s for 'refused'), during traffic through the shell and after the "
                       "shell ended; then Server.Do must have returned ErrOneShellClosed by itself; non-trivial = every scenario",
-                      key_fn=lambda i: json.dumps(i["before"]) + i["attach"] + str(i["one_shell"]))
+                      key_fn=lambda i: json.dumps(i["before"]) + i["attach"] + str(i["one_shell"]) + i.get("listen", "") + i.get("probe_after_ready", ""))
     e2e_stream(run)
     run.assumptions += ["net.Listener.Close makes the kernel refuse new connections 'shortly': polled up to 3 s; http.Server.Shutdown semantics are net/http's",
                         "the program's exit status for ErrOneShellClosed / EOF is modelled (Model/OneShell.exit_code) and exercised on the real binary by C20's check"]
